@@ -71,6 +71,15 @@ type typedErr struct{ Code int }
 
 func (e typedErr) Error() string { return fmt.Sprintf("typed-%d", e.Code) }
 
+// unwinder is a user-defined aggregate: it offers both Unwind() []error (the
+// library's own protocol) and Unwrap() []error (the stdlib protocol) with the
+// same contents, so errors.Is/As can see through it as well.
+type unwinder struct{ errs []error }
+
+func (u *unwinder) Error() string   { return fmt.Sprint("unwinder", u.errs) }
+func (u *unwinder) Unwind() []error { return u.errs }
+func (u *unwinder) Unwrap() []error { return u.errs }
+
 type otherErr struct{}
 
 func (*otherErr) Error() string { return "other-pointer-type" }
@@ -136,6 +145,7 @@ const (
 	opStackAdd2
 	opSIS2
 	opColl2
+	opUnwinder2
 	opJoin3
 	opSIS3
 	opPPSlice3
@@ -143,9 +153,9 @@ const (
 )
 
 var opNames = [...]string{"leaf", "Wrap", "Wrapf", "FmtW", "ParsePanicErr", "Join1", "Collector1", "StackPush1",
-	"Join2", "FmtWW", "ErrorsJoin2", "StackPush2", "StackAdd2", "StackInStack2", "Collector2",
+	"Join2", "FmtWW", "ErrorsJoin2", "StackPush2", "StackAdd2", "StackInStack2", "Collector2", "CustomUnwinder2",
 	"Join3", "StackInStack3", "ParsePanicSlice3"}
-var opArity = [...]int{0, 1, 1, 1, 1, 1, 1, 1, 2, 2, 2, 2, 2, 2, 2, 3, 3, 3}
+var opArity = [...]int{0, 1, 1, 1, 1, 1, 1, 1, 2, 2, 2, 2, 2, 2, 2, 2, 3, 3, 3}
 
 type expr struct {
 	op   int
@@ -200,6 +210,8 @@ func (e *expr) String() string {
 		return `fmt.Errorf("%w %w", ` + a + `)`
 	case opErrorsJoin2:
 		return `errors.Join(` + a + `)`
+	case opUnwinder2:
+		return `&unwinder{` + a + `}`
 	case opSIS2:
 		return `outer.Push(inner.Add(` + a + `)).Resolve()`
 	case opSIS3:
@@ -377,6 +389,18 @@ func eval(e *expr) (error, *mv) {
 			m = nilMV
 		} else {
 			m = stdAgg(ms...)
+		}
+	case opUnwinder2:
+		u := &unwinder{}
+		for _, x := range vs {
+			if x != nil {
+				u.errs = append(u.errs, x)
+			}
+		}
+		if len(u.errs) == 0 {
+			v, m = nil, nilMV
+		} else {
+			v, m = u, stdAgg(ms...)
 		}
 	case opSIS2:
 		inner, outer := &ers.Stack{}, &ers.Stack{}
@@ -753,16 +777,63 @@ func (w *worker) visit(e *expr) {
 			continue
 		}
 		w.found[sig] = found{sig, min.size, map[string]any{"expr": min.String(), "detail": detail, "first_seen_in": e.String(),
-			"legend": "E1,E2 ers.Error constants; P *myErr; T typedErr{7}; collector{a; b} = Collector.Add(a), Add(b); stackPush = fresh Stack.Push(..)...; stackAdd.asError = fresh Stack.Add(..) used directly as error; outer/inner = fresh Stacks"}}
+			"legend": "E1,E2 ers.Error constants; P *myErr; T typedErr{7}; collector{a; b} = Collector.Add(a), Add(b); &unwinder{..} = user type with Unwind() []error and Unwrap() []error; stackPush = fresh Stack.Push(..)...; stackAdd.asError = fresh Stack.Add(..) used directly as error; outer/inner = fresh Stacks"}}
 	}
 }
 
+// phase is one family of trees; gen enumerates the roots belonging to the
+// index range [lo,hi) of n independent slices of the family.
 type phase struct {
 	name  string
 	depth int
-	deep  []*expr // nil: roots are given directly
-	sib   []int
-	roots []*expr
+	n     int
+	gen   func(lo, hi int, fn func(*expr))
+}
+
+func rootsPhase(name string, roots []*expr) phase {
+	return phase{name: name, depth: 1, n: len(roots), gen: func(lo, hi int, fn func(*expr)) {
+		for _, e := range roots[lo:hi] {
+			fn(e)
+		}
+	}}
+}
+
+// spinePhase: exactly one child from deep (any position), leaf siblings from sib.
+func spinePhase(name string, depth int, deep []*expr, sib []int) phase {
+	return phase{name: name, depth: depth, n: len(deep), gen: func(lo, hi int, fn func(*expr)) { above(deep[lo:hi], sib, fn) }}
+}
+
+// pairPhase: every binary constructor over (l, r) and (r, l), l in L, r in R.
+func pairPhase(name string, L, R []*expr) phase {
+	return phase{name: name, depth: 2, n: len(L), gen: func(lo, hi int, fn func(*expr)) {
+		for _, l := range L[lo:hi] {
+			for _, r := range R {
+				for op := 1; op < numOps; op++ {
+					if opArity[op] == 2 {
+						fn(mk(op, l, r))
+						fn(mk(op, r, l))
+					}
+				}
+			}
+		}
+	}}
+}
+
+// triplePhase: every ternary constructor over (a, b, c), a in A, b in B, c in C.
+func triplePhase(name string, A, B, C []*expr) phase {
+	return phase{name: name, depth: 2, n: len(A), gen: func(lo, hi int, fn func(*expr)) {
+		for _, a := range A[lo:hi] {
+			for _, b := range B {
+				for _, c := range C {
+					for op := 1; op < numOps; op++ {
+						if opArity[op] == 3 {
+							fn(mk(op, a, b, c))
+						}
+					}
+				}
+			}
+		}
+	}}
 }
 
 // Run enumerates all trees of the tier.
@@ -775,28 +846,30 @@ func Run(r *rep.Report, tier string) {
 	deadline := start.Add(limit)
 
 	full := []int{lNil, lE1, lE2, lP, lT, lEOF, lPPStr, lPPInt, lPPNil}
-	small := []int{lNil, lE1, lT}
-	l1full, l1small, l1one := level1(full), level1(small), level1([]int{lE1})
+	l1full := level1(full)
+	l1 := func(leaves ...int) []*expr { return level1(leaves) }
 
-	var phases []phase
-	phases = append(phases, phase{name: "depth1: every constructor over all 9-leaf tuples", depth: 1, roots: l1full})
+	phases := []phase{rootsPhase("depth1: every constructor over all 9-leaf tuples", l1full)}
 	var rule string
 	if tier == "thorough" {
-		d2 := materialize(l1small, []int{lNil, lP})
-		d3 := materialize(materialize(l1one, []int{lP}), []int{lE2})
+		d2 := materialize(l1(lNil, lE1, lT), []int{lNil, lP})
+		d3 := materialize(materialize(l1(lE1), []int{lP}), []int{lE2})
 		phases = append(phases,
-			phase{name: "depth2: one depth-1 child (all 9 leaves) + siblings from {nil,E2,P}", depth: 2, deep: l1full, sib: []int{lNil, lE2, lP}},
-			phase{name: "depth3: one depth-2 child (leaves {nil,E1,T}, siblings {nil,P}) + siblings from {nil,E2}", depth: 3, deep: d2, sib: []int{lNil, lE2}},
-			phase{name: "depth4: one depth-3 spine child (leaf E1, siblings P, E2) + sibling io.EOF", depth: 4, deep: d3, sib: []int{lEOF}},
+			spinePhase("depth2 spine: one depth-1 child (all 9 leaves), leaf siblings from {nil,E2,P}", 2, l1full, []int{lNil, lE2, lP}),
+			pairPhase("depth2 full binary: both children depth-1, over leaves {nil,E1,T} and {nil,E2,P}, both orders", l1(lNil, lE1, lT), l1(lNil, lE2, lP)),
+			triplePhase("depth2 full ternary: three depth-1 children over leaves {E1},{E2,nil},{P}", l1(lE1), l1(lE2, lNil), l1(lP)),
+			spinePhase("depth3 spine: one depth-2 spine child (leaves {nil,E1,T}, siblings {nil,P}), leaf siblings from {nil,E2}", 3, d2, []int{lNil, lE2}),
+			spinePhase("depth4 spine: one depth-3 spine child (leaf E1, siblings P, E2), leaf sibling io.EOF", 4, d3, []int{lEOF}),
 		)
-		rule = "all trees of depth<=4 in which every n-ary node above depth 1 has exactly one non-leaf child (any position); leaf alphabets per phase as listed in phases"
+		rule = "trees of depth<=4: depth 1 complete over 9 leaves; depth 2 spine + all binary/ternary roots over two/three depth-1 children (reduced leaf alphabets); depth 3 and 4 spine trees (exactly one non-leaf child per node above depth 1, any position); alphabets as listed in phases"
 	} else {
-		d2 := materialize(l1one, []int{lP})
+		d2 := materialize(l1(lE1), []int{lP})
 		phases = append(phases,
-			phase{name: "depth2: one depth-1 child (leaves {nil,E1,T}) + siblings from {nil,P}", depth: 2, deep: l1small, sib: []int{lNil, lP}},
-			phase{name: "depth3: one depth-2 spine child (leaf E1, sibling P) + sibling E2", depth: 3, deep: d2, sib: []int{lE2}},
+			spinePhase("depth2 spine: one depth-1 child (leaves {nil,E1,T}), leaf siblings from {nil,P}", 2, l1(lNil, lE1, lT), []int{lNil, lP}),
+			pairPhase("depth2 full binary: both children depth-1, over leaves {nil,E1} and {nil,E2}, both orders", l1(lNil, lE1), l1(lNil, lE2)),
+			spinePhase("depth3 spine: one depth-2 spine child (leaf E1, sibling P), leaf sibling E2", 3, d2, []int{lE2}),
 		)
-		rule = "all trees of depth<=3 in which every n-ary node above depth 1 has exactly one non-leaf child (any position); leaf alphabets per phase as listed in phases"
+		rule = "trees of depth<=3: depth 1 complete over 9 leaves; depth 2 spine + all binary roots over two depth-1 children (reduced leaf alphabets); depth 3 spine trees (exactly one non-leaf child per node above depth 1, any position); alphabets as listed in phases"
 	}
 
 	nw := runtime.NumCPU()
@@ -804,16 +877,12 @@ func Run(r *rep.Report, tier string) {
 	depthDone, exhaustive := 0, true
 	var phaseInfo []string
 	for _, ph := range phases {
-		src := ph.roots
-		if ph.deep != nil {
-			src = ph.deep
-		}
-		const chunk = 64
-		jobs := make(chan [2]int, len(src)/chunk+1)
-		for lo := 0; lo < len(src); lo += chunk {
+		chunk := ph.n/(nw*8) + 1
+		jobs := make(chan [2]int, ph.n/chunk+1)
+		for lo := 0; lo < ph.n; lo += chunk {
 			hi := lo + chunk
-			if hi > len(src) {
-				hi = len(src)
+			if hi > ph.n {
+				hi = ph.n
 			}
 			jobs <- [2]int{lo, hi}
 		}
@@ -835,13 +904,7 @@ func Run(r *rep.Report, tier string) {
 						mu.Unlock()
 						continue
 					}
-					if ph.deep == nil {
-						for _, e := range src[j[0]:j[1]] {
-							w.visit(e)
-						}
-					} else {
-						above(src[j[0]:j[1]], ph.sib, w.visit)
-					}
+					ph.gen(j[0], j[1], w.visit)
 				}
 			}()
 		}
@@ -856,11 +919,12 @@ func Run(r *rep.Report, tier string) {
 				}
 			}
 		}
-		phaseInfo = append(phaseInfo, fmt.Sprintf("%s: %d trees", ph.name, total.trees-before))
 		if timedOut {
 			exhaustive = false
+			phaseInfo = append(phaseInfo, fmt.Sprintf("%s: INCOMPLETE (deadline), %d trees", ph.name, total.trees-before))
 			break
 		}
+		phaseInfo = append(phaseInfo, fmt.Sprintf("%s: %d trees", ph.name, total.trees-before))
 		depthDone = ph.depth
 	}
 
@@ -885,14 +949,12 @@ func Run(r *rep.Report, tier string) {
 	for _, e := range []*expr{l1full[0], l1full[len(l1full)/2], l1full[len(l1full)-1]} {
 		r.Sample(e.String())
 	}
-	if len(phases) > 1 && phases[len(phases)-1].deep != nil {
-		n := 0
-		last := phases[len(phases)-1]
-		above(last.deep[len(last.deep)/2:len(last.deep)/2+1], last.sib, func(e *expr) {
-			if n%7 == 3 && n < 30 {
-				r.Sample(e.String())
-			}
-			n++
-		})
-	}
+	last := phases[len(phases)-1]
+	n := 0
+	last.gen(last.n/2, last.n/2+1, func(e *expr) {
+		if n%7 == 3 && n < 30 {
+			r.Sample(e.String())
+		}
+		n++
+	})
 }
